@@ -1534,6 +1534,10 @@ impl<T: Transport, Env: UtpEnvironment> VirtualSocket<T, Env> {
                 .user_tx_segments
                 .iter_mut_for_sending(None)
                 .any(|s| s.send_count() == 0)
+            // A FIN takes the sequence number after the last segment. While an MTU probe is
+            // outstanding that number is not settled: if the probe is taken back, its bytes can
+            // be cut into more segments than before, and they would collide with the FIN.
+            || self.user_tx_segments.has_unacked_mtu_probe()
     }
 
     fn poll(&mut self, cx: &mut std::task::Context<'_>) -> Poll<crate::Result<()>> {
